@@ -13,6 +13,7 @@ UNLOCKS = ('nsync_mu_unlock', 'nsync_mu_runlock', 'nsync_mu_unlock_without_wakeu
 TRYLOCKS = {'nsync_mu_trylock': 'W', 'nsync_mu_rtrylock': 'R'}
 CONDWAITS = ('nsync_mu_wait', 'nsync_mu_wait_with_deadline')
 APPENDS = ('nsync_dll_make_last_in_list_', 'nsync_dll_make_first_in_list_')
+PURE_SIGN = ('nsync_time_cmp',)
 BLOCKING = ('nsync_mu_semaphore_p', 'nsync_mu_semaphore_p_with_deadline', 'nsync_cv_wait', 'nsync_cv_wait_with_deadline', 'nsync_wait_n',
             'nsync_note_wait', 'nsync_counter_wait', 'nsync_time_sleep')
 
@@ -57,7 +58,7 @@ class LockEngine(Engine):
             m = self._mutex_arg(inst, args)
             blocking = callee in LOCKS
             self.record(Record('acquire', inst, st, mutex=m, blocking=blocking, held=dict(self.held(st)), entry=self.entry_name,
-                               flags={k: v for k, v in st.ghost.items() if isinstance(k, tuple) and k[0] in ('disc', 'obs')}),
+                               flags={k: v for k, v in st.ghost.items() if isinstance(k, tuple) and k[0] in ('disc', 'obs', 'disc_excl')}),
                         ('acq', inst.fn.name, inst.id, st.stack(), tuple(sorted(st.ghost.items(), key=repr))))
             mode = LOCKS.get(callee) or TRYLOCKS[callee]
             s2 = None if blocking else st.fork()
@@ -81,6 +82,7 @@ class LockEngine(Engine):
             st.ghost.pop(('obs', o), None)
             if st.ghost.get(('enq_local', o)) == 1:
                 st.ghost[('enq_local', o)] = 2          # the record is now visible to wakers
+            st.ghost.pop(('discval', o), None)
             return [(st, TOP)]
         if callee in CONDWAITS:
             m = self._mutex_arg(inst, args)
@@ -89,8 +91,32 @@ class LockEngine(Engine):
                         ('cw', inst.fn.name, inst.id, st.stack(), tuple(sorted(st.ghost.items(), key=repr))))
             o = self.obj_of_mutex(m)
             st.ghost.pop(('obs', o), None)          # the lock was released while waiting: earlier observations are stale
+            st.ghost.pop(('discval', o), None)
             st.ghost[('waited', o)] = 1
             return [(st, TOP)]
+        if callee in PURE_SIGN:
+            # a pure three-way comparison: evaluated again with the same operands in the same activation (the idiom
+            # `if (cmp > 0 && x) ... else if (cmp > 0)`), it gives the same result - no infeasible "false, then true" path.
+            # Only the most recent evaluation per activation is remembered, so the state space stays small.
+            fr = st.top
+            slot = ('pure', callee, fr.fn.name, fr.depth)
+            def opkey(a, o):
+                if isinstance(a, int):
+                    return a
+                d = fr.fn.imap.get(o) if isinstance(o, str) else None
+                if d is not None and d.op == 'load' and isinstance(d.ops[0], dict):
+                    return 'load ' + repr(d.ops[0])          # a load from a constant address (e.g. a field of nsync_time_zero)
+                return repr(o)
+            akey = tuple(opkey(a, o) for a, o in zip(args, inst.ops))
+            cached = st.ghost.get(slot)
+            if isinstance(cached, tuple) and len(cached) == 2 and cached[0] == 'agg' and cached[1][0] == akey and is_expr(cached[1][1]) and cached[1][1][1] in st.S:
+                return [(st, cached[1][1])]
+            sym = 'cmp:%s:%s:%d' % (fr.fn.name, inst.id, fr.depth)
+            self.kill_sym(st, sym)
+            st.S[sym] = frozenset((0xFFFFFFFF, 0, 1))
+            v = ('e', sym, ('s',))
+            st.ghost[slot] = ('agg', (akey, v))          # 'agg' so that the state's liveness scan sees the symbol
+            return [(st, v)]
         if callee in ('malloc', 'calloc'):
             p = Ptr('heap:%s:%s' % (inst.fn.name, inst.id), ())
             st.nn.discard(p)
@@ -107,6 +133,10 @@ class LockEngine(Engine):
             self.record(Record('prim', inst, st, callee=callee, args=args, held=dict(self.held(st)), entry=self.entry_name),
                         ('prim', inst.fn.name, inst.id, st.stack(), tuple(sorted(st.ghost.items(), key=repr))))
         return None
+    def on_return(self, st, fn, val):
+        d = st.top.depth
+        for k in [k for k in st.ghost if isinstance(k, tuple) and k and k[0] == 'pure' and k[2] == fn.name and k[3] == d]:
+            del st.ghost[k]
     def unknown_ret(self, st, f, inst):
         v = Engine.unknown_ret(self, st, f, inst)
         if isinstance(v, Ptr) and inst.callee:
@@ -118,6 +148,22 @@ class LockEngine(Engine):
         self.origin.setdefault((self.entry_name, sp.base), set()).add(p)
         if p.path and p.path[-1][0] == 'f' and p.path[-1][1] in ('nsync_dll_element_s_.next', 'nsync_dll_element_s_.prev'):
             st.nn.add(sp)
+    def on_int_load(self, st, f, inst, p):
+        # the disconnecting count of a note, read under that note's mutex: abstracted to {0, non-zero} so that tests of it are path-sensitive
+        if p.path and p.path[-1][0] == 'f' and p.path[-1][1].endswith('.disconnecting'):
+            obj = Ptr(p.base, p.path[:-1])
+            mf = self.mutex_field_of(p.path[-1][1])
+            if mf and any(isinstance(m, Ptr) and m.base == obj.base and m.path[:-1] == obj.path and m.path[-1][1] == mf for m in self.held(st)):
+                cached = st.ghost.get(('discval', obj))
+                if is_expr(cached) and cached[1] in st.S:
+                    return cached          # same critical section, nobody else can have changed it
+                sym = 'disc:%s:%s' % (f.fn.name, inst.id)
+                self.kill_sym(st, sym)
+                st.S[sym] = frozenset((0, 1))
+                v = ('e', sym, ('s',))
+                st.ghost[('discval', obj)] = v
+                return v
+        return None
     def atomic_load_other(self, st, f, inst, p):
         if isinstance(p, Ptr) and p.path and p.path[-1][0] == 'f' and p.path[-1][1] in self.ready_fields:
             obj = Ptr(p.base, p.path[:-1])
@@ -146,12 +192,21 @@ class LockEngine(Engine):
                 if isinstance(el, Ptr) and el.base.startswith('alloca:'):
                     st.ghost[('enq_local', obj)] = 1           # a record living in this thread's frame is put on a shared list
             if fld.endswith('.disconnecting'):
+                if is_expr(v):
+                    st.ghost[('discval', obj)] = v
+                else:
+                    st.ghost.pop(('discval', obj), None)
                 # ++ / -- of the disconnecting count by this thread
                 vi = f.fn.imap.get(inst.ops[0]) if isinstance(inst.ops[0], str) else None
                 if vi is not None and vi.op in ('add', 'sub'):
                     c = [o for o in vi.ops if IR.is_int(o)]
                     if c:
                         d = IR.ival(c[0]) if vi.op == 'add' else -IR.ival(c[0])
+                        if d > 0:
+                            # was the count known to be zero when this thread raised it?  (then it is the only disconnector)
+                            old = next((self.val(f, o) for o in vi.ops if isinstance(o, str)), None)
+                            excl = is_expr(old) and old[2] == ('s',) and st.S.get(old[1]) == frozenset((0,))
+                            st.ghost[('disc_excl', obj)] = 1 if excl else 0
                         cur = st.ghost.get(('disc', obj), 0) + (1 if d > 0 else -1)
                         if cur:
                             st.ghost[('disc', obj)] = cur
